@@ -1,11 +1,52 @@
-// Package vatomic stands in for "sync/atomic" in the rewritten packages (typed atomics only; the
-// function forms are not used by the library and would be a build error, never a silent pass-through).
+// Package vatomic stands in for "sync/atomic" in the rewritten packages: the typed atomics are modelled
+// objects, the function forms operate on the real variable inside a modelled atomic step.
 package vatomic
 
-import "github.com/vmware/go-ipfix/pkg/verifshim/vsched"
+import (
+	"sync/atomic"
+	"unsafe"
+
+	"github.com/vmware/go-ipfix/pkg/verifshim/vsched"
+)
 
 type Bool = vsched.Bool
 type Int32 = vsched.Int32
 type Int64 = vsched.Int64
 type Uint32 = vsched.Uint32
 type Uint64 = vsched.Uint64
+type Value = atomic.Value
+
+func at(p unsafe.Pointer, d string) { vsched.AtomicAt(uintptr(p), d) }
+
+func AddInt32(a *int32, d int32) int32       { at(unsafe.Pointer(a), "atomic.AddInt32"); return atomic.AddInt32(a, d) }
+func AddInt64(a *int64, d int64) int64       { at(unsafe.Pointer(a), "atomic.AddInt64"); return atomic.AddInt64(a, d) }
+func AddUint32(a *uint32, d uint32) uint32   { at(unsafe.Pointer(a), "atomic.AddUint32"); return atomic.AddUint32(a, d) }
+func AddUint64(a *uint64, d uint64) uint64   { at(unsafe.Pointer(a), "atomic.AddUint64"); return atomic.AddUint64(a, d) }
+func LoadInt32(a *int32) int32               { at(unsafe.Pointer(a), "atomic.LoadInt32"); return atomic.LoadInt32(a) }
+func LoadInt64(a *int64) int64               { at(unsafe.Pointer(a), "atomic.LoadInt64"); return atomic.LoadInt64(a) }
+func LoadUint32(a *uint32) uint32            { at(unsafe.Pointer(a), "atomic.LoadUint32"); return atomic.LoadUint32(a) }
+func LoadUint64(a *uint64) uint64            { at(unsafe.Pointer(a), "atomic.LoadUint64"); return atomic.LoadUint64(a) }
+func StoreInt32(a *int32, v int32)           { at(unsafe.Pointer(a), "atomic.StoreInt32"); atomic.StoreInt32(a, v) }
+func StoreInt64(a *int64, v int64)           { at(unsafe.Pointer(a), "atomic.StoreInt64"); atomic.StoreInt64(a, v) }
+func StoreUint32(a *uint32, v uint32)        { at(unsafe.Pointer(a), "atomic.StoreUint32"); atomic.StoreUint32(a, v) }
+func StoreUint64(a *uint64, v uint64)        { at(unsafe.Pointer(a), "atomic.StoreUint64"); atomic.StoreUint64(a, v) }
+func SwapInt32(a *int32, v int32) int32      { at(unsafe.Pointer(a), "atomic.SwapInt32"); return atomic.SwapInt32(a, v) }
+func SwapInt64(a *int64, v int64) int64      { at(unsafe.Pointer(a), "atomic.SwapInt64"); return atomic.SwapInt64(a, v) }
+func SwapUint32(a *uint32, v uint32) uint32  { at(unsafe.Pointer(a), "atomic.SwapUint32"); return atomic.SwapUint32(a, v) }
+func SwapUint64(a *uint64, v uint64) uint64  { at(unsafe.Pointer(a), "atomic.SwapUint64"); return atomic.SwapUint64(a, v) }
+func CompareAndSwapInt32(a *int32, o, n int32) bool {
+	at(unsafe.Pointer(a), "atomic.CompareAndSwapInt32")
+	return atomic.CompareAndSwapInt32(a, o, n)
+}
+func CompareAndSwapInt64(a *int64, o, n int64) bool {
+	at(unsafe.Pointer(a), "atomic.CompareAndSwapInt64")
+	return atomic.CompareAndSwapInt64(a, o, n)
+}
+func CompareAndSwapUint32(a *uint32, o, n uint32) bool {
+	at(unsafe.Pointer(a), "atomic.CompareAndSwapUint32")
+	return atomic.CompareAndSwapUint32(a, o, n)
+}
+func CompareAndSwapUint64(a *uint64, o, n uint64) bool {
+	at(unsafe.Pointer(a), "atomic.CompareAndSwapUint64")
+	return atomic.CompareAndSwapUint64(a, o, n)
+}
